@@ -508,6 +508,10 @@ namespace plan
     {
       auto &v = p.second;
       for (size_t i = 0; i < v.size(); ++i)
+        for (size_t j = 0; j < v.size(); ++j)
+          if (i != j && vcmp(v[i].st, v[i].en) == 0 && vcmp(v[j].st, v[i].st) < 0 && vcmp(v[i].st, v[j].en) < 0)
+            nested_zero_length = true; // an empty interval strictly inside another atom: legal, but no ordering resolver leads there
+      for (size_t i = 0; i < v.size(); ++i)
         for (size_t j = i + 1; j < v.size(); ++j)
         {
           cnt.inc("p3.pairs");
